@@ -497,4 +497,521 @@ theorem ilLoop_spec {g : Grid} {rows cols : Nat} (h : GridOk g rows cols) (hr : 
   have : ¬ (top + (n - 1 + 1) ≤ (j : Int) ∧ (j : Int) < top + n) := by omega
   rw [if_neg this]
 
+/-! ### the reference side, row-wise -/
+
+theorem zipAll_get_iff {α β : Type} (p : α × β → Bool) : ∀ (l1 : List α) (l2 : List β),
+    (l1.zip l2).all p = true ↔ ∀ (j : Nat) (a : α) (b : β), l1[j]? = some a → l2[j]? = some b → p (a, b) = true := by
+  intro l1
+  induction l1 with
+  | nil => intro l2; simp
+  | cons x xs ih =>
+    intro l2
+    cases l2 with
+    | nil => simp
+    | cons y ys =>
+      simp only [List.zip_cons_cons, List.all_cons, Bool.and_eq_true, ih]
+      constructor
+      · intro ⟨h0, h⟩ j a b ha hb
+        cases j with
+        | zero => simp at ha hb; subst ha; subst hb; exact h0
+        | succ j => simp at ha hb; exact h j a b ha hb
+      · intro h
+        exact ⟨h 0 x y rfl rfl, fun j a b ha hb => h (j + 1) a b (by simpa using ha) (by simpa using hb)⟩
+
+theorem gridAccepts_get_iff (tg ag : Term.TGrid) : Term.gridAccepts tg ag = true ↔
+    tg.length = ag.length ∧ ∀ (j : Nat) (tr ar : Term.TRow), tg[j]? = some tr → ag[j]? = some ar →
+      Term.rowAccepts tr ar = true := by
+  unfold Term.gridAccepts
+  rw [Bool.and_eq_true, zipAll_get_iff, decide_eq_true_eq]
+
+theorem scrollRegionUp_get (g : Term.TGrid) (rows top bottom k : Nat) (b : Term.TRow)
+    (hl : g.length = rows) (htb : top ≤ bottom) (hb : bottom < rows) (j : Nat) :
+    (Term.scrollRegionUp g top bottom k b)[j]? =
+      if top ≤ j ∧ j ≤ bottom then (if j + k ≤ bottom then g[j + k]? else some b) else g[j]? := by
+  unfold Term.scrollRegionUp
+  simp only [List.getElem?_append, List.length_take, List.length_drop, List.length_append,
+    List.length_replicate, List.getElem?_take, List.getElem?_drop, List.getElem?_replicate, hl]
+  have h1 : min top rows = top := by omega
+  have h2 : min (bottom + 1 - top) (rows - top) = bottom + 1 - top := by omega
+  simp only [h1, h2]
+  repeat' split
+  all_goals first | rfl | (exfalso; omega) | (congr 1; omega)
+
+theorem scrollRegionDown_get (g : Term.TGrid) (rows top bottom k : Nat) (b : Term.TRow)
+    (hl : g.length = rows) (htb : top ≤ bottom) (hb : bottom < rows) (j : Nat) :
+    (Term.scrollRegionDown g top bottom k b)[j]? =
+      if top ≤ j ∧ j ≤ bottom then (if top + k ≤ j then g[j - k]? else some b) else g[j]? := by
+  unfold Term.scrollRegionDown
+  simp only [List.getElem?_append, List.length_take, List.length_drop, List.length_append,
+    List.length_replicate, List.getElem?_take, List.getElem?_drop, List.getElem?_replicate, hl]
+  have h1 : min top rows = top := by omega
+  have h2 : min (bottom + 1 - top) (rows - top) = bottom + 1 - top := by omega
+  simp only [h1, h2]
+  repeat' split
+  all_goals first | rfl | (exfalso; omega) | (congr 1; omega)
+
+theorem scrollRegionUp_length (g : Term.TGrid) (rows top bottom k : Nat) (b : Term.TRow)
+    (hl : g.length = rows) (htb : top ≤ bottom) (hb : bottom < rows) :
+    (Term.scrollRegionUp g top bottom k b).length = rows := by
+  unfold Term.scrollRegionUp
+  simp only [List.length_take, List.length_drop, List.length_append, List.length_replicate, hl]
+  omega
+
+theorem scrollRegionDown_length (g : Term.TGrid) (rows top bottom k : Nat) (b : Term.TRow)
+    (hl : g.length = rows) (htb : top ≤ bottom) (hb : bottom < rows) :
+    (Term.scrollRegionDown g top bottom k b).length = rows := by
+  unfold Term.scrollRegionDown
+  simp only [List.length_take, List.length_drop, List.length_append, List.length_replicate, hl]
+  omega
+
+
+/-- An erased emulator row is the reference's blank row. -/
+theorem rowAccepts_blank_erase (row : Row) (cols : Nat) (bg : Nat) (hl : row.length = cols) :
+    Term.rowAccepts (List.replicate cols (.blank (absCol bg))) (absRow (eraseRow bg row)) = true := by
+  subst hl
+  induction row with
+  | nil => rfl
+  | cons c rest ih =>
+    simp only [Term.rowAccepts, absRow, eraseRow, List.length_cons, List.replicate_succ, List.map_cons,
+      List.zip_cons_cons, List.all_cons, List.length_replicate, List.length_map, decide_true,
+      Bool.true_and, accepts_blank_erase] at ih ⊢
+    exact ih
+
+/-- Scrolling up on both sides keeps grid acceptance. `k` is the reference's count, `n` the
+    emulator's: equal, or both larger than the region. -/
+theorem up_accepts {tg : Term.TGrid} {g g' : Grid} {rows cols : Nat} (hg : GridOk g rows cols)
+    (hg' : GridOk g' rows cols) (hacc : Term.gridAccepts tg (g.map absRow) = true)
+    (tT tB k : Nat) (n : Int) (bg : Nat) (hTB : tT ≤ tB) (hB : tB < rows)
+    (hk : (k : Int) = n ∨ ((tB : Int) - tT < k ∧ (tB : Int) - tT < n))
+    (hrow : ∀ j : Nat, g'[j]? = upRow g tT tB n bg j) :
+    Term.gridAccepts (Term.scrollRegionUp tg tT tB k (List.replicate cols (.blank (absCol bg))))
+      (g'.map absRow) = true := by
+  rw [gridAccepts_get_iff] at hacc ⊢
+  obtain ⟨hlen, hall⟩ := hacc
+  have htl : tg.length = rows := by rw [hlen, List.length_map, hg.len]
+  refine ⟨by rw [scrollRegionUp_length tg rows tT tB k _ htl hTB hB, List.length_map, hg'.len], ?_⟩
+  intro j tr ar htr har
+  rw [scrollRegionUp_get tg rows tT tB k _ htl hTB hB] at htr
+  rw [List.getElem?_map, hrow j] at har
+  unfold upRow at har
+  by_cases hin : tT ≤ j ∧ j ≤ tB
+  · have hin' : (tT : Int) ≤ (j : Int) ∧ (j : Int) ≤ (tB : Int) := by omega
+    rw [if_pos hin] at htr; rw [if_pos hin'] at har
+    by_cases hmv : j + k ≤ tB
+    · have hmv' : (j : Int) + n ≤ (tB : Int) := by omega
+      have hidx : ((j : Int) + n).toNat = j + k := by omega
+      rw [if_pos hmv] at htr; rw [if_pos hmv', hidx] at har
+      exact hall (j + k) tr ar htr (by rw [List.getElem?_map]; exact har)
+    · have hmv' : ¬ ((j : Int) + n ≤ (tB : Int)) := by omega
+      rw [if_neg hmv] at htr; rw [if_neg hmv'] at har
+      obtain ⟨r, hr, hrl⟩ := gridOk_get hg (j := j) (by omega)
+      rw [hr] at har
+      simp only [Option.map_some, Option.some.injEq] at har htr
+      subst har; subst htr
+      exact rowAccepts_blank_erase r cols bg hrl
+  · have hin' : ¬ ((tT : Int) ≤ (j : Int) ∧ (j : Int) ≤ (tB : Int)) := by omega
+    rw [if_neg hin] at htr; rw [if_neg hin'] at har
+    exact hall j tr ar htr (by rw [List.getElem?_map]; exact har)
+
+theorem down_accepts {tg : Term.TGrid} {g g' : Grid} {rows cols : Nat} (hg : GridOk g rows cols)
+    (hg' : GridOk g' rows cols) (hacc : Term.gridAccepts tg (g.map absRow) = true)
+    (tT tB k : Nat) (n : Int) (bg : Nat) (hTB : tT ≤ tB) (hB : tB < rows)
+    (hk : (k : Int) = n ∨ ((tB : Int) - tT < k ∧ (tB : Int) - tT < n))
+    (hrow : ∀ j : Nat, g'[j]? = downRow g tT tB n bg j) :
+    Term.gridAccepts (Term.scrollRegionDown tg tT tB k (List.replicate cols (.blank (absCol bg))))
+      (g'.map absRow) = true := by
+  rw [gridAccepts_get_iff] at hacc ⊢
+  obtain ⟨hlen, hall⟩ := hacc
+  have htl : tg.length = rows := by rw [hlen, List.length_map, hg.len]
+  refine ⟨by rw [scrollRegionDown_length tg rows tT tB k _ htl hTB hB, List.length_map, hg'.len], ?_⟩
+  intro j tr ar htr har
+  rw [scrollRegionDown_get tg rows tT tB k _ htl hTB hB] at htr
+  rw [List.getElem?_map, hrow j] at har
+  unfold downRow at har
+  by_cases hin : tT ≤ j ∧ j ≤ tB
+  · have hin' : (tT : Int) ≤ (j : Int) ∧ (j : Int) ≤ (tB : Int) := by omega
+    rw [if_pos hin] at htr; rw [if_pos hin'] at har
+    by_cases hmv : tT + k ≤ j
+    · have hmv' : (tT : Int) + n ≤ (j : Int) := by omega
+      have hidx : ((j : Int) - n).toNat = j - k := by omega
+      rw [if_pos hmv] at htr; rw [if_pos hmv', hidx] at har
+      exact hall (j - k) tr ar htr (by rw [List.getElem?_map]; exact har)
+    · have hmv' : ¬ ((tT : Int) + n ≤ (j : Int)) := by omega
+      rw [if_neg hmv] at htr; rw [if_neg hmv'] at har
+      obtain ⟨r, hr, hrl⟩ := gridOk_get hg (j := j) (by omega)
+      rw [hr] at har
+      simp only [Option.map_some, Option.some.injEq] at har htr
+      subst har; subst htr
+      exact rowAccepts_blank_erase r cols bg hrl
+  · have hin' : ¬ ((tT : Int) ≤ (j : Int) ∧ (j : Int) ≤ (tB : Int)) := by omega
+    rw [if_neg hin] at htr; rw [if_neg hin'] at har
+    exact hall j tr ar htr (by rw [List.getElem?_map]; exact har)
+
+/-! ### the simulation relation across a scroll -/
+
+theorem blankRow_eq {t : Term.T} {e : Emu} {rows cols : Nat} (s : Sim t e rows cols) :
+    t.blankRow = List.replicate cols (.blank (absCol e.bg)) := by
+  unfold Term.T.blankRow; rw [s.tcols, blank_eq s]
+
+theorem sim_scrollUp {t : Term.T} {e : Emu} {rows cols : Nat} (s : Sim t e rows cols)
+    (tT tB k : Nat) (n : Int) (hTB : tT ≤ tB) (hB : tB < rows)
+    (hk : (k : Int) = n ∨ ((tB : Int) - tT < k ∧ (tB : Int) - tT < n))
+    {g' : Grid} (hg' : GridOk g' rows cols)
+    (hrow : ∀ j : Nat, g'[j]? = upRow e.active tT tB n e.bg j) :
+    Sim (t.scrollUp tT tB k) (e.setActive g') rows cols := by
+  unfold Term.T.scrollUp
+  rw [blankRow_eq s]
+  exact sim_setGrid s _ g' hg'
+    (up_accepts (active_ok s.inv) hg' s.grid tT tB k n e.bg hTB hB hk hrow) (e.setActive g').lastCol
+
+theorem sim_scrollDown {t : Term.T} {e : Emu} {rows cols : Nat} (s : Sim t e rows cols)
+    (tT tB k : Nat) (n : Int) (hTB : tT ≤ tB) (hB : tB < rows)
+    (hk : (k : Int) = n ∨ ((tB : Int) - tT < k ∧ (tB : Int) - tT < n))
+    {g' : Grid} (hg' : GridOk g' rows cols)
+    (hrow : ∀ j : Nat, g'[j]? = downRow e.active tT tB n e.bg j) :
+    Sim (t.scrollDown tT tB k) (e.setActive g') rows cols := by
+  unfold Term.T.scrollDown
+  rw [blankRow_eq s]
+  exact sim_setGrid s _ g' hg'
+    (down_accepts (active_ok s.inv) hg' s.grid tT tB k n e.bg hTB hB hk hrow) (e.setActive g').lastCol
+
+/-! ### `scrollUp` / `scrollDown` of the emulator, functionally -/
+
+theorem scrollUp_spec {e : Emu} {rows cols : Nat} (h : EmuInv e rows cols) (d : Dim rows cols)
+    {n : Int} (hn : 0 ≤ n) :
+    ∃ g', scrollUp e n = .ok (e.setActive g') ∧ GridOk g' rows cols ∧
+      ∀ j : Nat, g'[j]? = upRow e.active e.top e.bottom n e.bg j := by
+  obtain ⟨g', h1, h2, h3⟩ := scrollUpLoop_spec (active_ok h) d.rmax d.cmax e.top e.bottom n e.bg
+    h.topLo h.botHi hn
+  refine ⟨g', ?_, h2, h3⟩
+  unfold scrollUp
+  rw [height_eq h, h.left0, h.right]
+  simp only [h1, bind, Except.bind]
+
+theorem scrollDown_spec {e : Emu} {rows cols : Nat} (h : EmuInv e rows cols) (d : Dim rows cols)
+    {n : Int} (hn : 0 ≤ n) :
+    ∃ g', scrollDown e n = .ok (e.setActive g') ∧ GridOk g' rows cols ∧
+      ∀ j : Nat, g'[j]? = downRow e.active e.top e.bottom n e.bg j := by
+  have := h.topLe
+  obtain ⟨g', h1, h2, h3⟩ := scrollDownLoop_spec (active_ok h) d.rmax d.cmax e.top e.bottom n e.bg
+    h.topLo (by omega) h.botHi hn
+  refine ⟨g', ?_, h2, h3⟩
+  unfold scrollDown
+  rw [h.left0, h.right]
+  simp only [h1, bind, Except.bind]
+
+/-- the emulator's count (after clamp and default) against the reference's -/
+theorem count_rel (n : Nat) :
+    ((Term.d1 n : Nat) : Int) = dflt1 (cpS n) ∨ (65535 < ((Term.d1 n : Nat) : Int) ∧ dflt1 (cpS n) = 65535) := by
+  rw [cpS_eq]; unfold Term.d1 dflt1
+  split <;> split <;> split <;> omega
+
+/-! ### SU / SD -/
+
+theorem su_refines {t : Term.T} {e : Emu} {rows cols : Nat} (s : Sim t e rows cols) (n : Nat) :
+    ∃ e', scrollUp e (dflt1 (cpS n)) = .ok e' ∧ Refines (Term.step t (.su n)) e' rows cols := by
+  have hd := dflt1_ok (cpS_ok n)
+  have := s.dim.rmax; have ht := s.top; have hb := s.bottom; have := s.inv.topLe; have := s.inv.botHi
+  obtain ⟨g', h1, h2, h3⟩ := scrollUp_spec s.inv s.dim (n := dflt1 (cpS n)) (by omega)
+  refine ⟨_, h1, ?_⟩
+  simp only [Term.step]
+  refine refines_one (sim_scrollUp s t.top t.bottom (Term.d1 n) (dflt1 (cpS n)) (by omega) (by omega) ?_ h2 ?_)
+  · rcases count_rel n with h | h <;> omega
+  · rw [ht, hb]; exact h3
+
+theorem sd_refines {t : Term.T} {e : Emu} {rows cols : Nat} (s : Sim t e rows cols) (n : Nat) :
+    ∃ e', scrollDown e (dflt1 (cpS n)) = .ok e' ∧ Refines (Term.step t (.sd n)) e' rows cols := by
+  have hd := dflt1_ok (cpS_ok n)
+  have := s.dim.rmax; have ht := s.top; have hb := s.bottom; have := s.inv.topLe; have := s.inv.botHi
+  obtain ⟨g', h1, h2, h3⟩ := scrollDown_spec s.inv s.dim (n := dflt1 (cpS n)) (by omega)
+  refine ⟨_, h1, ?_⟩
+  simp only [Term.step]
+  refine refines_one (sim_scrollDown s t.top t.bottom (Term.d1 n) (dflt1 (cpS n)) (by omega) (by omega) ?_ h2 ?_)
+  · rcases count_rel n with h | h <;> omega
+  · rw [ht, hb]; exact h3
+
+/-! ### IND / LF / NEL / RI -/
+
+/-- Only `lastCol` changes. -/
+theorem sim_lastCol {t : Term.T} {e : Emu} {rows cols : Nat} (s : Sim t e rows cols) (lc : Bool) :
+    Sim t { e with lastCol := lc } rows cols :=
+  sim_moveRow s t.row e.cur.row s.row (by have := s.row; have := s.inv.rowHi; omega) lc
+
+/-- The column becomes 0 (no pending wrap before or after). -/
+theorem sim_col0 {t : Term.T} {e : Emu} {rows cols : Nat} (s : Sim t e rows cols) (hp : t.pw = false)
+    (c : Cursor) (hc : c = e.cur) :
+    Sim { t with col := 0 } { e with cur := { c with col := 0 } } rows cols := by
+  subst hc
+  have := s.dim.c1
+  exact
+  { inv := { s.inv with colLo := by simp only; omega, colHi := by simp only; omega }
+    dim := s.dim, vm := ⟨s.vm.awm, s.vm.irm, s.vm.lnm, s.vm.ascii, s.vm.noShift⟩
+    trows := s.trows, tcols := s.tcols, onAlt := s.onAlt
+    row := s.row
+    col := by simp only; split <;> omega
+    pw := by simp only; rw [hp]; symm; rw [decide_eq_false_iff_not]; omega
+    pen := s.pen, link := s.link, top := s.top, bottom := s.bottom
+    grid := s.grid }
+
+theorem scroll_setGrid_pw (t : Term.T) (g : Term.TGrid) : (t.setGrid g).pw = t.pw := by
+  unfold Term.T.setGrid; split <;> rfl
+
+theorem indCore_pw (t : Term.T) : t.indCore.pw = t.pw := by
+  unfold Term.T.indCore Term.T.scrollUp
+  split
+  · exact scroll_setGrid_pw _ _
+  · split <;> rfl
+
+/-- IND moves both sides alike, in every state (the pending-wrap test is the caller's). -/
+theorem ind_sim {t : Term.T} {e : Emu} {rows cols : Nat} (s : Sim t e rows cols) :
+    ∃ e', ind e = .ok e' ∧ Sim t.indCore e' rows cols := by
+  have s0 := sim_lastCol s false
+  have hh := height_eq s0.inv
+  have hr := s.row; have ht := s.top; have hb := s.bottom; have := s.inv.topLe; have := s.inv.botHi
+  have := s.inv.rowLo; have := s.inv.rowHi; have := s.trows
+  unfold ind Term.T.indCore
+  simp only [hh]
+  by_cases h1 : e.cur.row = e.bottom
+  · have h1' : t.row = t.bottom := by omega
+    rw [if_pos h1, if_pos h1']
+    obtain ⟨g', hg1, hg2, hg3⟩ := scrollUp_spec s0.inv s0.dim (n := 1) (by omega)
+    refine ⟨_, hg1, sim_scrollUp s0 t.top t.bottom 1 1 (by omega) (by omega) (Or.inl rfl) hg2 ?_⟩
+    rw [ht, hb]; exact hg3
+  · have h1' : ¬ t.row = t.bottom := by omega
+    rw [if_neg h1, if_neg h1']
+    by_cases h2 : e.cur.row ≥ (rows : Int) - 1
+    · have h2' : ¬ (t.row + 1 < t.rows) := by omega
+      rw [if_pos h2, if_neg h2']
+      exact ⟨_, rfl, s0⟩
+    · have h2' : t.row + 1 < t.rows := by omega
+      rw [if_neg h2, if_pos h2']
+      exact ⟨_, rfl, sim_moveRow s (t.row + 1) (e.cur.row + 1) (by omega) (by omega) false⟩
+
+theorem ind_refines {t : Term.T} {e : Emu} {rows cols : Nat} (s : Sim t e rows cols) :
+    ∃ e', ind e = .ok e' ∧ Refines (Term.step t .ind) e' rows cols := by
+  obtain ⟨e', h1, h2⟩ := ind_sim s
+  refine ⟨e', h1, ?_⟩
+  simp only [Term.step]
+  exact refines_unlessPw (fun _ => refines_one h2)
+
+theorem lf_refines {t : Term.T} {e : Emu} {rows cols : Nat} (s : Sim t e rows cols) :
+    ∃ e', lf e = .ok e' ∧ Refines (Term.step t .lf) e' rows cols := by
+  obtain ⟨e', h1, h2⟩ := ind_sim s
+  refine ⟨e', ?_, ?_⟩
+  · unfold lf
+    simp only [h1, bind, Except.bind, h2.vm.lnm, Bool.not_false, if_true]
+  · simp only [Term.step]
+    exact refines_unlessPw (fun _ => refines_one h2)
+
+theorem nel_refines {t : Term.T} {e : Emu} {rows cols : Nat} (s : Sim t e rows cols) :
+    ∃ e', nel e = .ok e' ∧ Refines (Term.step t .nel) e' rows cols := by
+  obtain ⟨e', h1, h2⟩ := ind_sim s
+  refine ⟨{ e' with cur := { e'.cur with col := e'.left } }, ?_, ?_⟩
+  · unfold nel
+    simp only [h1, bind, Except.bind]
+  · simp only [Term.step]
+    refine refines_unlessPw (fun hp => refines_one ?_)
+    have heq : ({ e' with cur := { e'.cur with col := e'.left } } : Emu) =
+        { e' with cur := { e'.cur with col := 0 } } := by rw [h2.inv.left0]
+    rw [heq]
+    exact sim_col0 h2 (by rw [indCore_pw]; exact hp) e'.cur rfl
+
+theorem riCore_pw (t : Term.T) : t.riCore.pw = t.pw := by
+  unfold Term.T.riCore Term.T.scrollDown
+  split
+  · exact scroll_setGrid_pw _ _
+  · split <;> rfl
+
+theorem ri_sim {t : Term.T} {e : Emu} {rows cols : Nat} (s : Sim t e rows cols) :
+    ∃ e', ri Fixes.current e = .ok e' ∧ Sim t.riCore e' rows cols := by
+  have s0 := sim_lastCol s false
+  have hr := s.row; have ht := s.top; have hb := s.bottom; have := s.inv.topLe; have := s.inv.botHi
+  have := s.inv.rowLo; have := s.inv.rowHi; have := s.trows
+  unfold ri Term.T.riCore
+  simp only [Fixes.current, if_true]
+  by_cases h1 : e.cur.row = e.top
+  · have h1' : t.row = t.top := by omega
+    rw [if_pos h1, if_pos h1']
+    obtain ⟨g', hg1, hg2, hg3⟩ := scrollDown_spec s0.inv s0.dim (n := 1) (by omega)
+    refine ⟨_, hg1, sim_scrollDown s0 t.top t.bottom 1 1 (by omega) (by omega) (Or.inl rfl) hg2 ?_⟩
+    rw [ht, hb]; exact hg3
+  · have h1' : ¬ t.row = t.top := by omega
+    rw [if_neg h1, if_neg h1']
+    by_cases h2 : e.cur.row ≤ 0
+    · have h2' : ¬ (t.row > 0) := by omega
+      rw [if_pos h2, if_neg h2']
+      exact ⟨_, rfl, s0⟩
+    · have h2' : t.row > 0 := by omega
+      rw [if_neg h2, if_pos h2']
+      exact ⟨_, rfl, sim_moveRow s (t.row - 1) (e.cur.row - 1) (by omega) (by omega) false⟩
+
+theorem ri_refines {t : Term.T} {e : Emu} {rows cols : Nat} (s : Sim t e rows cols) :
+    ∃ e', ri Fixes.current e = .ok e' ∧ Refines (Term.step t .ri) e' rows cols := by
+  obtain ⟨e', h1, h2⟩ := ri_sim s
+  refine ⟨e', h1, ?_⟩
+  simp only [Term.step]
+  exact refines_unlessPw (fun _ => refines_one h2)
+
+/-! ### IL / DL -/
+
+theorem il_spec {e : Emu} {rows cols : Nat} (h : EmuInv e rows cols) (d : Dim rows cols)
+    (hin : e.top ≤ e.cur.row ∧ e.cur.row ≤ e.bottom) (hcol : e.cur.col < cols) {n : Int} (hn : POk n) :
+    ∃ g', il Fixes.current e n =
+        .ok { (Emu.setActive { e with lastCol := false } g') with
+              cur := { ({ e with lastCol := false } : Emu).cur with col := 0 } } ∧
+      GridOk g' rows cols ∧
+      ∀ j : Nat, g'[j]? = downRow ({ e with lastCol := false } : Emu).active
+        ({ e with lastCol := false } : Emu).cur.row ({ e with lastCol := false } : Emu).bottom
+        (ilClamp Fixes.current { e with lastCol := false } n) ({ e with lastCol := false } : Emu).bg j := by
+  have h0 := inv_lastCol h false
+  have hin0 : ({ e with lastCol := false } : Emu).top ≤ ({ e with lastCol := false } : Emu).cur.row ∧
+      ({ e with lastCol := false } : Emu).cur.row ≤ ({ e with lastCol := false } : Emu).bottom := hin
+  have hcol0 : ({ e with lastCol := false } : Emu).cur.col < cols := hcol
+  unfold il
+  generalize ({ e with lastCol := false } : Emu) = e0 at h0 hin0 hcol0 ⊢
+  simp only []
+  have hb := ilClamp_bounds e0 hn hin0.2
+  have hk1 : 1 ≤ ilClamp Fixes.current e0 n := by
+    have hd := dflt1_ok hn
+    unfold ilClamp; simp only [Fixes.current, if_true]; split <;> omega
+  generalize ilClamp Fixes.current e0 n = k at hb hk1 ⊢
+  have := h0.colLo; have := h0.left0; have := h0.right
+  obtain ⟨g1, g', hl1, hl2, hg', hrows⟩ := ilLoop_spec (active_ok h0) d.rmax d.cmax e0.cur.row e0.bottom k
+    e0.bg h0.rowLo h0.botHi (by omega) (by omega)
+  refine ⟨g', ?_, hg', hrows⟩
+  have hcond : ¬ (e0.cur.row < e0.top ∨ e0.cur.row > e0.bottom ∨ e0.cur.col < e0.left ∨ e0.cur.col > e0.right) := by
+    omega
+  rw [if_neg hcond, h0.left0, h0.right]
+  simp only [hl1, hl2, bind, Except.bind]
+
+theorem dl_spec {e : Emu} {rows cols : Nat} (h : EmuInv e rows cols) (d : Dim rows cols)
+    (hin : e.top ≤ e.cur.row ∧ e.cur.row ≤ e.bottom) (hcol : e.cur.col < cols) {n : Int} (hn : POk n) :
+    ∃ g', dl Fixes.current e n =
+        .ok { (Emu.setActive { e with lastCol := false } g') with
+              cur := { ({ e with lastCol := false } : Emu).cur with col := 0 } } ∧
+      GridOk g' rows cols ∧
+      ∀ j : Nat, g'[j]? = upRow ({ e with lastCol := false } : Emu).active
+        ({ e with lastCol := false } : Emu).cur.row ({ e with lastCol := false } : Emu).bottom
+        (ilClamp Fixes.current { e with lastCol := false } n) ({ e with lastCol := false } : Emu).bg j := by
+  have h0 := inv_lastCol h false
+  have hin0 : ({ e with lastCol := false } : Emu).top ≤ ({ e with lastCol := false } : Emu).cur.row ∧
+      ({ e with lastCol := false } : Emu).cur.row ≤ ({ e with lastCol := false } : Emu).bottom := hin
+  have hcol0 : ({ e with lastCol := false } : Emu).cur.col < cols := hcol
+  unfold dl
+  generalize ({ e with lastCol := false } : Emu) = e0 at h0 hin0 hcol0 ⊢
+  simp only []
+  have hb := ilClamp_bounds e0 hn hin0.2
+  generalize ilClamp Fixes.current e0 n = k at hb ⊢
+  have := h0.colLo; have := h0.left0; have := h0.right
+  obtain ⟨g', hl1, hg', hrows⟩ := dlLoop_spec (active_ok h0) d.rmax d.cmax e0.cur.row e0.bottom k
+    e0.bg h0.rowLo (by omega) h0.botHi (by omega)
+  refine ⟨g', ?_, hg', hrows⟩
+  have hcond : ¬ (e0.cur.row < e0.top ∨ e0.cur.row > e0.bottom ∨ e0.cur.col < e0.left ∨ e0.cur.col > e0.right) := by
+    omega
+  rw [if_neg hcond, h0.left0, h0.right]
+  simp only [hl1, bind, Except.bind]
+
+theorem scrollDown_pw (t : Term.T) (a b k : Nat) : (t.scrollDown a b k).pw = t.pw := scroll_setGrid_pw _ _
+theorem scrollUp_pw (t : Term.T) (a b k : Nat) : (t.scrollUp a b k).pw = t.pw := scroll_setGrid_pw _ _
+
+/-- the count of IL/DL after `ilClamp`, against the reference's `d1 n` over the region `row..bottom` -/
+theorem ilCount_rel (e : Emu) (n : Nat) (hrow : e.cur.row ≤ e.bottom) (hb : e.bottom < 65535) (h0 : 0 ≤ e.cur.row) :
+    ((Term.d1 n : Nat) : Int) = ilClamp Fixes.current e (cpS n) ∨
+      (e.bottom - e.cur.row < ((Term.d1 n : Nat) : Int) ∧ e.bottom - e.cur.row < ilClamp Fixes.current e (cpS n)) := by
+  have := count_rel n
+  unfold ilClamp
+  simp only [Fixes.current, if_true]
+  split <;> omega
+
+theorem il_refines {t : Term.T} {e : Emu} {rows cols : Nat} (s : Sim t e rows cols) (n : Nat) :
+    ∃ e', il Fixes.current e (cpS n) = .ok e' ∧ Refines (Term.step t (.il n)) e' rows cols := by
+  by_cases hp : t.pw = true
+  · obtain ⟨e', h1, _⟩ := il_safe s.inv s.dim (cpS_ok n)
+    refine ⟨e', h1, ?_⟩
+    simp only [Term.step]; unfold Term.unlessPw; rw [if_pos hp]; trivial
+  · have hp : t.pw = false := by simpa using hp
+    have hcol := col_lt_of_not_pw s hp
+    have s0 := sim_lastCol s false
+    have hr := s.row; have ht := s.top; have hb := s.bottom; have := s.inv.topLe; have := s.inv.botHi
+    have := s.inv.rowLo; have := s.inv.rowHi; have := s.inv.colLo; have := s.inv.left0; have := s.inv.right
+    have := s.dim.rmax
+    by_cases hin : e.top ≤ e.cur.row ∧ e.cur.row ≤ e.bottom
+    · obtain ⟨g', h1, hg', hrows⟩ := il_spec s.inv s.dim hin hcol (cpS_ok n)
+      refine ⟨_, h1, ?_⟩
+      simp only [Term.step]
+      refine refines_unlessPw (fun _ => ?_)
+      have hin' : t.top ≤ t.row ∧ t.row ≤ t.bottom := by omega
+      rw [if_pos hin']
+      have s1 := sim_scrollDown s0 t.row t.bottom (Term.d1 n)
+        (ilClamp Fixes.current { e with lastCol := false } (cpS n)) (by omega) (by omega)
+        (by rw [hr, hb]
+            exact ilCount_rel { e with lastCol := false } n hin.2 (by simp only; omega) (by simp only; omega))
+        hg' (by rw [hr, hb]; exact hrows)
+      refine ⟨_, List.mem_cons_of_mem _ (List.mem_singleton.mpr rfl), ?_⟩
+      exact sim_col0 s1 (by rw [scrollDown_pw]; exact hp) _ (setActive_cur { e with lastCol := false } g').symm
+    · have hcond : e.cur.row < e.top ∨ e.cur.row > e.bottom ∨ e.cur.col < e.left ∨ e.cur.col > e.right := by
+        omega
+      refine ⟨{ e with lastCol := false }, ?_, ?_⟩
+      · unfold il; simp only []; rw [if_pos hcond]
+      · simp only [Term.step]
+        refine refines_unlessPw (fun _ => ?_)
+        have hin' : ¬ (t.top ≤ t.row ∧ t.row ≤ t.bottom) := by omega
+        rw [if_neg hin']
+        exact refines_one s0
+
+theorem dl_refines {t : Term.T} {e : Emu} {rows cols : Nat} (s : Sim t e rows cols) (n : Nat) :
+    ∃ e', dl Fixes.current e (cpS n) = .ok e' ∧ Refines (Term.step t (.dl n)) e' rows cols := by
+  by_cases hp : t.pw = true
+  · obtain ⟨e', h1, _⟩ := dl_safe s.inv s.dim (cpS_ok n)
+    refine ⟨e', h1, ?_⟩
+    simp only [Term.step]; unfold Term.unlessPw; rw [if_pos hp]; trivial
+  · have hp : t.pw = false := by simpa using hp
+    have hcol := col_lt_of_not_pw s hp
+    have s0 := sim_lastCol s false
+    have hr := s.row; have ht := s.top; have hb := s.bottom; have := s.inv.topLe; have := s.inv.botHi
+    have := s.inv.rowLo; have := s.inv.rowHi; have := s.inv.colLo; have := s.inv.left0; have := s.inv.right
+    have := s.dim.rmax
+    by_cases hin : e.top ≤ e.cur.row ∧ e.cur.row ≤ e.bottom
+    · obtain ⟨g', h1, hg', hrows⟩ := dl_spec s.inv s.dim hin hcol (cpS_ok n)
+      refine ⟨_, h1, ?_⟩
+      simp only [Term.step]
+      refine refines_unlessPw (fun _ => ?_)
+      have hin' : t.top ≤ t.row ∧ t.row ≤ t.bottom := by omega
+      rw [if_pos hin']
+      have s1 := sim_scrollUp s0 t.row t.bottom (Term.d1 n)
+        (ilClamp Fixes.current { e with lastCol := false } (cpS n)) (by omega) (by omega)
+        (by rw [hr, hb]
+            exact ilCount_rel { e with lastCol := false } n hin.2 (by simp only; omega) (by simp only; omega))
+        hg' (by rw [hr, hb]; exact hrows)
+      refine ⟨_, List.mem_cons_of_mem _ (List.mem_singleton.mpr rfl), ?_⟩
+      exact sim_col0 s1 (by rw [scrollUp_pw]; exact hp) _ (setActive_cur { e with lastCol := false } g').symm
+    · have hcond : e.cur.row < e.top ∨ e.cur.row > e.bottom ∨ e.cur.col < e.left ∨ e.cur.col > e.right := by
+        omega
+      refine ⟨{ e with lastCol := false }, ?_, ?_⟩
+      · unfold dl; simp only []; rw [if_pos hcond]
+      · simp only [Term.step]
+        refine refines_unlessPw (fun _ => ?_)
+        have hin' : ¬ (t.top ≤ t.row ∧ t.row ≤ t.bottom) := by omega
+        rw [if_neg hin']
+        exact refines_one s0
+
 end VaxisModel.Lemmas.EmuRefine
+
+/-! ### sanity: the functional characterisations on a concrete 4×1 screen (region rows 1..3) -/
+section sanity
+open VaxisModel.Model.Emu VaxisModel.Lemmas.EmuRefine
+
+private def cellOf (k : Nat) : ECell := { g := [48 + k], w := 1 }
+private def e4 : Emu :=
+  { primary := [[cellOf 0], [cellOf 1], [cellOf 2], [cellOf 3]], alt := [[cellOf 0], [cellOf 1], [cellOf 2], [cellOf 3]],
+    top := 1, bottom := 3, right := 0, cur := { row := 1, st := { bg := 7 } } }
+
+private def obs (r : M Emu) : Option Grid := match r with | .ok e => some e.primary | .error _ => none
+
+example : obs (scrollUp e4 2) = some ((List.range 4).filterMap (upRow e4.active 1 3 2 7)) := by decide
+example : obs (scrollDown e4 1) = some ((List.range 4).filterMap (downRow e4.active 1 3 1 7)) := by decide
+example : obs (il Fixes.current e4 2) = some ((List.range 4).filterMap (downRow e4.active 1 3 2 7)) := by decide
+example : obs (dl Fixes.current e4 1) = some ((List.range 4).filterMap (upRow e4.active 1 3 1 7)) := by decide
+example : (List.range 4).filterMap (upRow e4.active 1 3 2 7) =
+    [[cellOf 0], [cellOf 3], [(cellOf 2).erase 7], [(cellOf 3).erase 7]] := by decide
+end sanity
